@@ -6,14 +6,15 @@
    while other work is going on) and reports caught / missed;
 3. with --keep stores patch, demo and meta (with the outcome) under /verif/seeded/<PID>[-NAME]/.
 """
-import os, sys, json, shutil, subprocess, argparse, time, glob
+import os, sys, json, shutil, subprocess, argparse, time, glob, shlex
 
 VERIF = os.path.dirname(os.path.dirname(os.path.abspath(__file__)))
 
 
 def sh(cmd, cwd=None, env=None, timeout=1800):
-    p = subprocess.run(cmd, shell=True, cwd=cwd, env=env, stdout=subprocess.PIPE, stderr=subprocess.STDOUT, text=True,
-                       timeout=timeout)
+    # `timeout -k` so that a hanging pytest (a thread of a timer based test that never ends) cannot block the evaluation
+    p = subprocess.run("timeout -k 10 %d sh -c %s" % (timeout, shlex.quote(cmd)), shell=True, cwd=cwd, env=env,
+                       stdout=subprocess.PIPE, stderr=subprocess.STDOUT, text=True)
     return p.returncode, p.stdout
 
 
@@ -67,7 +68,7 @@ def main():
             tests = " ".join(tests_for(open(patch).read()))
         base_fail = []
         if tests:
-            _, tb = sh("/venv/bin/python -m pytest -q -p no:cacheprovider --timeout=120 %s" % tests, cwd=work, env=env)
+            _, tb = sh("/venv/bin/python -m pytest -q -p no:cacheprovider --timeout=120 %s" % tests, cwd=work, env=env, timeout=900)
             base_fail = failing(tb)
         rca, outa = sh("git apply %s" % patch, cwd=work)
         if rca != 0:
@@ -78,7 +79,7 @@ def main():
             rc1, out1 = sh(runner % dpath, cwd=work, env=env, timeout=600)
         new_fail = []
         if tests:
-            _, tp = sh("/venv/bin/python -m pytest -q -p no:cacheprovider --timeout=120 %s" % tests, cwd=work, env=env)
+            _, tp = sh("/venv/bin/python -m pytest -q -p no:cacheprovider --timeout=120 %s" % tests, cwd=work, env=env, timeout=900)
             new_fail = [f for f in failing(tp) if f not in base_fail]
             if new_fail:            # timer based tests are flaky under load: re-run the new failures alone, twice
                 for _ in range(2):
